@@ -190,6 +190,9 @@ def do_run(ids, tier, all_checks, props_extra):
                    cwd=tmp)
       if rc:
         rows.append((sid, meta["property"], "PATCH-FAILS", out[-200:]))
+        print("%-8s %-4s %-7s %s" % (sid, meta["property"], "PATCH-NO-LONGER-APPLIES",
+                                     "(the tree changed under it: a later fix: commit)"),
+              flush=True)
         continue
       props = [meta["property"]] + list(props_extra)
       if all_checks:
